@@ -5,7 +5,7 @@ Correspondence (implementation vs Lean model Gnpy.Verdict):
   loader  json_io.Transceiver penalty-table normalisation                                   vs  normalise
   path    requests_from_json error kinds; compute_path_with_disjunction fixed-mode branch (both directions) and
           propagate_and_optimize_mode on small designed networks with generated libraries   vs  fixedReason /
-          selectModeCurrent / selectMode / autoReason, receiver figures, update_snr argument lists (loopArgs)
+          selectModeOld / selectMode / autoReason, receiver figures, update_snr argument lists (loopArgs)
 Monitor: the statement evaluated with plain arithmetic (common/nets_g.py indep_*), every candidate mode judged on a
 line propagation made with ITS OWN baud rate and offset.
 """
@@ -27,7 +27,7 @@ THEOREMS = [f'Gnpy.Verdict.{t}' for t in (
     'penalty_outside_blocks', 'minMetric_spec', 'penalty_normalised',
     'passFixed_iff', 'passAuto_iff', 'verdict_iff', 'verdict_margin', 'fixedReason_spec',
     'selectMode_spec', 'none_feasible_reason', 'autoReason_spec',
-    'selectMode_fails_current', 'selectMode_current_accepts_infeasible')] + [
+    'selectMode_fails_old', 'selectModeOld_accepts_infeasible')] + [
     'Gnpy.HE.rintR_mono', 'Gnpy.HE.abs_rintR_sub_le', 'Gnpy.HE.round2_mono', 'Gnpy.HE.abs_round2_sub_le',
     'Gnpy.HE.round2_grid', 'Gnpy.Verdict.modeOrder_sorted', 'Gnpy.Verdict.mem_modeOrder']
 RULE = ('one PRNG; kinds: trx (25 %: random received spectra, 1-5 successive update_snr calls with None/scalar/array '
@@ -44,7 +44,6 @@ MODEL_SCOPE = ('modelled: utils.snr_sum, Transceiver._calc_snr/update_snr/_calc_
                'trx_mode_params/_check_one_request. Input of the model (not modelled here, see C01-C07): the line '
                'propagation, i.e. the raw_* arrays, CD, PMD, PDL at the receiver and the roadm-osnr values.')
 PARTIAL = []
-F9 = 'F9-mode-offset-mix'
 
 BAUDS = [28, 32, 32, 32, 42, 56, 64]
 OFFSETS_MDB = [0, 0, 0, 0, 1000, 2000, 3000, -1000, -2000, 1500, -500]
@@ -534,7 +533,7 @@ def _judge(metric, thr):
     return r > thr, False
 
 
-def run_path(case, drv, _reclass=True):
+def run_path(case, drv):
     from gnpy.topology.request import compute_path_dsjctn, compute_path_with_disjunction
     res = Result()
     mal = case.get('malformed')
@@ -678,15 +677,18 @@ def run_path(case, drv, _reclass=True):
         return len(a) == len(b) and all(abs(x - y) <= 1e-9 for x, y in zip(a, b))
     mixed = any(a['baud_rate'] == b['baud_rate'] and a['offset_mdb'] != b['offset_mdb'] for a in fitting for b in fitting)
     same_rep, same_cur = same(rep), same(cur)
-    f9_hit = mixed and same_cur and not same_rep   # the implementation follows the loop as it is in the code (F9)
+    # F9 (fixed in /repo as 5d202380): the loop used to judge every mode of a baud rate on one (baud, offset) pair's
+    # propagation.  The implementation must equal the repaired loop `selectMode`; `selectModeOld` (the old loop) is kept in
+    # the model only as the counterexample witness and is used here for a statistic.
+    old_loop = mixed and same_cur and not same_rep
     if near:
         res.ill += 1
     else:
         res.compared += 3
-        if not same_rep and not f9_hit:
+        if not same_rep:
             res.mismatch('propagate_and_optimize_mode', {'kind': impl_kind, 'mode': impl_mode},
                          {'repaired': {k: rep[k] for k in ('kind', 'mode', 'prop')},
-                          'current': {k: cur[k] for k in ('kind', 'mode', 'prop')}})
+                          'old_loop_F9': {k: cur[k] for k in ('kind', 'mode', 'prop')}}, behaves_like_old_F9_loop=old_loop)
     chosen = modes[impl_mode] if impl_mode is not None else None
     # reverse direction with the retained mode
     rev_ev = rp = None
@@ -712,7 +714,7 @@ def run_path(case, drv, _reclass=True):
     # loop's or the repaired loop's; both give "roadm entries + exactly one tx" per call, which is what is compared
     if pairs:
         n_rev = 2 if (case['bidir'] and chosen is not None) else 0
-        explored = None if near else [o['explored'] for o in (rep, cur) if same(o)]
+        explored = None if (near or not same_rep) else [rep['explored']]
         _check_loop_contribs(res, drv, spy.calls[:len(spy.calls) - n_rev], path0, props[pairs[0]], src_uid, dst_uid, modes,
                              explored, n_roadm)
 
@@ -777,26 +779,15 @@ def run_path(case, drv, _reclass=True):
             if msg:
                 failures.append(msg)
     if failures:
-        cls = 'unlisted'
-        if f9_hit and _reclass:
-            # F9 class: two candidate modes share the baud rate with different offsets, the implementation does exactly what
-            # the loop documented as finding F9 does (faithful model `selectModeCurrent`), AND the discrepancy disappears when
-            # the offsets are equalised (same library with every offset set to 0)
-            c2 = copy.deepcopy(case)
-            for m in c2['modes']:
-                m['offset_mdb'] = 0
-            r2 = run_path(c2, drv, _reclass=False)
-            if not r2.failures:
-                cls = F9
-        if cls == 'unlisted' and near and not (same_rep or same_cur):
-            res.ill += 1      # a cross judgement sits on a rounding tie: the outcome is not judged
+        if near and not same_rep:
+            res.ill += 1      # a judgement sits on a rounding tie: the outcome is not judged
         else:
             for f in failures:
-                res.fail(f if cls == 'unlisted' else 'F9 ' + f, cls=cls)
+                res.fail(('F9-like ' if old_loop else '') + f, cls='unlisted')
     res.nontrivial = bool(fitting)
     res.stats.update({f'auto_{reason or "served"}': 1, 'auto_modes': len(modes), 'auto_fitting': len(fitting),
                       'auto_pairs': len(pairs), 'auto_same_baud_different_offset': int(mixed),
-                      'auto_code_differs_from_repaired_loop': int(f9_hit),
+                      'auto_old_F9_loop_would_differ': int(mixed and (cur['kind'], cur['mode'], cur['prop']) != (rep['kind'], rep['mode'], rep['prop'])),
                       'auto_feasible_modes': sum(1 for m in fitting if own[m['format']][0])})
     return res
 
